@@ -101,6 +101,37 @@ func init() {
 		x.DefString("checkAssign", checkAssign)
 		x.DefOptBool("saltReadBeforeCheckpoint", saltPos < ckptPos, saltPos != token.NoPos && ckptPos != token.NoPos)
 
+		x.Comment("db/checkpoint_manager.go Checkpoint: every place the result's WALReset field is set (one literal before the outcome branches = every outcome, busy included, carries it)")
+		var resetSites []string
+		if fd := x.Func("db", "CheckpointManager", "Checkpoint"); fd != nil {
+			firstBranch := token.NoPos
+			for _, st := range fd.Body.List {
+				if is, ok := st.(*ast.IfStmt); ok && x.Src(is.Cond) == "rc == 0" {
+					firstBranch = is.Pos()
+				}
+			}
+			ast.Inspect(fd.Body, func(n ast.Node) bool {
+				switch v := n.(type) {
+				case *ast.KeyValueExpr:
+					if x.Src(v.Key) == "WALReset" {
+						where := "after-branches-start"
+						if firstBranch != token.NoPos && v.Pos() < firstBranch {
+							where = "before-branches"
+						}
+						resetSites = append(resetSites, "literal:"+x.Src(v.Value)+":"+where)
+					}
+				case *ast.AssignStmt:
+					for _, l := range v.Lhs {
+						if strings.HasSuffix(x.Src(l), ".WALReset") {
+							resetSites = append(resetSites, "assign:"+x.Src(v))
+						}
+					}
+				}
+				return true
+			})
+		}
+		x.DefStrings("walResetSites", resetSites)
+
 		x.Comment("db/wal_reset_watch.go (*WALResetWatch).Check: the three returns, in order")
 		var checkRets []string
 		if fd := x.Func("db", "WALResetWatch", "Check"); fd != nil {
